@@ -50,6 +50,11 @@ pub struct Scn {
     /// fault: retransmission of an arbitrary byte range — (from_client, a, b, position in the arrival order)
     #[serde(default)]
     pub extra: Vec<(bool, usize, usize, usize)>,
+    /// fault: at this position of the arrival order the server side sends another SYN+ACK with this (other) initial
+    /// sequence number - a SYN-cookie server or SYN proxy answering a retransmitted SYN; the connection goes on
+    /// with the first one
+    #[serde(default)]
+    pub second_synack: Option<(usize, u32)>,
 }
 
 pub struct C09;
@@ -100,6 +105,11 @@ fn build_trace(s: &Scn, isn_c: u32, isn_s: u32, c_cuts: &[usize], s_cuts: &[usiz
         }
     };
     for (oi, &(fc, k)) in order.iter().enumerate() {
+        if let Some((pos, isn2)) = s.second_synack {
+            if pos == oi {
+                push(tcp::syn_ack(&h, s.client, s.server, isn2, isn_c, 0, 0), (false, usize::MAX, 0, 0), &mut trace, &mut meta);
+            }
+        }
         for &(efc, a, b, pos) in &s.extra {
             if pos == oi {
                 if let Some(seg) = extra_seg(efc, a, b) {
@@ -289,7 +299,13 @@ impl Prop for C09 {
                 }
             }
         }
-        let total = (nc + ns + 2 + extra.len()) as u64;
+        let second_synack = if r.chance(1, 10) {
+            let other = r.u32();
+            Some((r.usize_below(nc + ns + 1), *r.pick(&[isn_s.wrapping_add(1000), isn_s.wrapping_sub(5), other, isn_s.wrapping_add(1)])))
+        } else {
+            None
+        };
+        let total = (nc + ns + 3 + extra.len()) as u64;
         Scn {
             kind: if r.chance(1, 4) { Kind::Unified } else { Kind::Http },
             framing: *r.pick(&[Framing::Ethernet, Framing::Ethernet, Framing::RawIp]),
@@ -313,6 +329,7 @@ impl Prop for C09 {
             fin_s: r.chance(1, 8),
             extend_back,
             extra,
+            second_synack,
         }
     }
 
@@ -323,7 +340,7 @@ impl Prop for C09 {
         let ns = segs(s.resp.len(), &s.s_cuts).len();
         // ---- reference: in order, one segment per direction, plain ISNs
         clock::arm(1_700_000_000_000);
-        let plain = Scn { extend_back: vec![], extra: vec![], ..s.clone() };
+        let plain = Scn { extend_back: vec![], extra: vec![], second_synack: None, ..s.clone() };
         let (rt, _) = build_trace(&plain, 1000, 5000, &[], &[], &in_order(1, 1));
         let rout = sut::run_deliver(&cfg, &rt).map_err(|e| Violation::new("harness-error", "", e))?;
         let pick = |outs: &[sut::PktOut], kind: &str| -> Vec<String> { outs.iter().flat_map(|o| o.obs.iter()).filter(|o| o.kind == kind).map(|o| o.text.clone()).collect() };
@@ -353,6 +370,9 @@ impl Prop for C09 {
             st.fault("reorder");
         }
         st.fault_n("retransmission_coalesced_with_earlier_segments", s.extend_back.len() as u64);
+        if s.second_synack.is_some() {
+            st.fault("second_syn_ack_with_another_sequence_number");
+        }
         if wrap_c || wrap_s {
             st.fault("isn_wraps_inside_stream");
         }
@@ -482,6 +502,11 @@ impl Prop for C09 {
             }
             x
         };
+        if s.second_synack.is_some() {
+            let mut x = s.clone();
+            x.second_synack = None;
+            out.push(x);
+        }
         // without the retransmission faults
         if !s.extend_back.is_empty() || !s.extra.is_empty() {
             let mut x = s.clone();
